@@ -210,12 +210,69 @@ def split (sep : RT.Sep) (keep : Bool) (a : Abs) : List Abs :=
     ((splitOnP (Flat.isSep sep) a.atoms).filter fun seg => !seg.isEmpty || keep).map fun seg => ⟨a.top, seg⟩
 
 def isAlpha (a : Abs) : Bool := Flat.isAlpha a.atoms
-def startsWith (ps : List Str) (a : Abs) : Bool := Flat.startsWith ps a.atoms
-def endsWith (ps : List Str) (a : Abs) : Bool := Flat.endsWith ps a.atoms
+/-- `startswith` / `endswith`; the empty `String` starts and ends with the empty string (as `""`
+does), an empty multipart text with nothing. -/
+def startsWith (ps : List Str) (a : Abs) : Bool :=
+  Flat.startsWith ps a.atoms || (a.top == .string && a.atoms.isEmpty && ps.contains [])
+def endsWith (ps : List Str) (a : Abs) : Bool :=
+  Flat.endsWith ps a.atoms || (a.top == .string && a.atoms.isEmpty && ps.contains [])
 def contains (item : Str) (a : Abs) : Bool :=
   if item.isEmpty then a.top != .symbol else Flat.hasWindow item a.atoms
 
 end Abs
+
+/-- The abstract counterpart of `RT.Op`: operands are abstract values. -/
+inductive AbsOp where
+  | add (x : Abs) | radd (x : Abs) | append (x : Abs) | joinWith (xs : List Abs)
+  | slice (i j : Option Int) | index (i : Int)
+  | upper | lower | capfirst | capitalize | addPeriod
+  | splitPick (sep : RT.Sep) (keep : Bool) (pick : Nat)
+
+namespace Abs
+
+def step (terms : List Str) (a : Abs) : AbsOp → Except RT.Err Abs
+  | .add x => .ok (add a x)
+  | .radd x => .ok (add x a)
+  | .append x => .ok (append a x)
+  | .joinWith xs => .ok (join a xs)
+  | .slice i j => .ok (slice a i j)
+  | .index i => index a i
+  | .upper => .ok (caseMap upperC a)
+  | .lower => .ok (caseMap lowerC a)
+  | .capfirst => .ok (capfirst a)
+  | .capitalize => .ok (capitalize a)
+  | .addPeriod => .ok (addPeriod terms ⟨.string, [(.ch '.', [])]⟩ a)
+  | .splitPick sep keep pick =>
+    let ps := split sep keep a
+    match ps[pick % ps.length]? with
+    | some p => .ok p
+    | none => .ok a
+
+def run (terms : List Str) (a : Abs) : List AbsOp → List (Except RT.Err Abs)
+  | [] => []
+  | op :: ops =>
+    match step terms a op with
+    | .ok a' => .ok a' :: run terms a' ops
+    | .error e => .error e :: run terms a ops
+
+end Abs
+
+namespace RT
+/-- abstraction of an operation: abstract the operands. -/
+def Op.abs : Op → AbsOp
+  | .add x => .add x.abs
+  | .radd x => .radd x.abs
+  | .append x => .append x.abs
+  | .joinWith xs => .joinWith (xs.map RT.abs)
+  | .slice i j => .slice i j
+  | .index i => .index i
+  | .upper => .upper
+  | .lower => .lower
+  | .capfirst => .capfirst
+  | .capitalize => .capitalize
+  | .addPeriod => .addPeriod
+  | .splitPick sep keep pick => .splitPick sep (keepDefault sep keep) pick
+end RT
 
 /-- The tracing backend: `RenderType` = list of (atom, markup stack) pairs. `format_str` gives
 every character an empty stack, `format_tag` / `format_href` / `format_protected` push their
